@@ -211,8 +211,14 @@ func (P *curvePoint) UnmarshalBinary(buf []byte) error {
 		return fmt.Errorf("invalid point format: expected uncompressed (4), got %d", buf[0])
 	}
 
-	P.x = new(big.Int).SetBytes(buf[1 : 1+byteLen])
-	P.y = new(big.Int).SetBytes(buf[1+byteLen : 1+2*byteLen])
+	x := new(big.Int).SetBytes(buf[1 : 1+byteLen])
+	y := new(big.Int).SetBytes(buf[1+byteLen : 1+2*byteLen])
+	// Only curve points (and the identity, encoded as (0,0)) are usable:
+	// crypto/elliptic panics when handed anything else.
+	if !(&curvePoint{x, y, P.c}).Valid() {
+		return errors.New("invalid point: not on the curve")
+	}
+	P.x, P.y = x, y
 	return nil
 }
 
